@@ -426,6 +426,12 @@ class Gen:
                 j = per.get(s_, 0)
                 ent.append((s_, table[j % len(table)]))
                 per[s_] = j + 1
+        elif shape.startswith("sigmajor:"):
+            # listed signal by signal: the same ascending run of satellites once per signal ("sigmajor:<nsat>x<rows>")
+            ns_, rows_ = [int(x) for x in shape[9:].split("x")]
+            for j in range(rows_):
+                for s_ in range(ns_):
+                    ent.append((s_, table[j % len(table)]))
         elif shape == "latefail":
             # a long body written before the encoder refuses the list: every satellite but the last is fine,
             # the highest-numbered one carries more than 31 entries
